@@ -50,6 +50,11 @@ enum Expr {
     Boxed(Box<Expr>),
     Rc(Box<Expr>),
     Arc(Box<Expr>),
+    /// `a.and_then(b)` called on the concrete leaf types (a `Box<dyn Validate>` would hide a leaf type's own
+    /// override of the provided method)
+    TypedAnd(Leaf, Leaf),
+    /// `a.map(..)` called on the concrete leaf type
+    TypedMap(Leaf),
 }
 
 struct Wrap(RegisteredClaims);
@@ -75,8 +80,46 @@ fn build_leaf(l: &Leaf) -> BoxV {
     }
 }
 
+/// binds `$x` to the leaf as a value of its concrete type
+macro_rules! with_leaf {
+    ($l:expr, $x:ident => $body:expr) => {
+        match $l {
+            Leaf::Time(i) => {
+                let $x = Time::valid_at(instants()[*i]);
+                $body
+            }
+            Leaf::Leeway(i, j) => {
+                let $x = Time::valid_at(instants()[*i]).with_leeway(leeways()[*j]);
+                $body
+            }
+            Leaf::HasExpiry => {
+                let $x = HasExpiry;
+                $body
+            }
+            Leaf::Sub(s) => {
+                let $x = ForSubject(*s);
+                $body
+            }
+            Leaf::Iss(s) => {
+                let $x = FromIssuer(s.to_string());
+                $body
+            }
+            Leaf::Aud(s) => {
+                let $x = ForAudience(*s);
+                $body
+            }
+            Leaf::NoValidation => {
+                let $x = NoValidation::<RegisteredClaims>::dangerous_no_validation();
+                $body
+            }
+        }
+    };
+}
+
 fn build(e: &Expr) -> BoxV {
     match e {
+        Expr::TypedAnd(a, b) => with_leaf!(a, x => with_leaf!(b, y => Box::new(x.and_then(y)) as BoxV)),
+        Expr::TypedMap(a) => with_leaf!(a, x => Box::new(ViaWrap(x.map(|w: &Wrap| &w.0))) as BoxV),
         Expr::Leaf(l) => build_leaf(l),
         Expr::And(a, b) => Box::new(build(a).and_then(build(b))),
         Expr::VecOf(v) => Box::new(v.iter().map(build).collect::<Vec<BoxV>>()),
@@ -117,6 +160,8 @@ fn eval(e: &Expr, c: &RegisteredClaims) -> bool {
             Leaf::NoValidation => true,
         },
         Expr::And(a, b) => eval(a, c) && eval(b, c),
+        Expr::TypedAnd(a, b) => eval(&Expr::Leaf(a.clone()), c) && eval(&Expr::Leaf(b.clone()), c),
+        Expr::TypedMap(a) => eval(&Expr::Leaf(a.clone()), c),
         Expr::VecOf(v) | Expr::Slice(v) => v.iter().all(|x| eval(x, c)),
         Expr::Map(a) | Expr::Boxed(a) | Expr::Rc(a) | Expr::Arc(a) => eval(a, c),
     }
@@ -167,6 +212,15 @@ fn compose(lhs: &[Expr], rhs: &[Expr], unary_over: &[Expr]) -> Vec<Expr> {
 fn expressions(depth: usize) -> Vec<Expr> {
     let d1 = leaves();
     let mut all = d1.clone();
+    // the provided methods called on every concrete leaf type (every ordered pair of leaves)
+    for a in &d1 {
+        let Expr::Leaf(la) = a else { continue };
+        all.push(Expr::TypedMap(la.clone()));
+        for b in &d1 {
+            let Expr::Leaf(lb) = b else { continue };
+            all.push(Expr::TypedAnd(la.clone(), lb.clone()));
+        }
+    }
     let d2 = compose(&d1, &d1, &d1);
     all.extend(d2.iter().cloned());
     if depth >= 3 {
@@ -217,7 +271,7 @@ pub fn build_prop(ctx: &Ctx) -> Property {
                 "validators",
                 n,
                 format!(
-                    "all {n} validator expressions of depth <= {depth} over 20 leaves (Time x 3 instants, TimeWithLeeway x 3 instants x leeway {{0, 1 ns, 1 s}}, HasExpiry, ForSubject / FromIssuer / ForAudience x {{\"a\", \"\"}}, NoValidation) and the combinators and_then, Vec (0..2), boxed slice (0..2), map, Box, Rc, Arc (depth 3: one operand of depth 2 and one leaf) x {nclaims} claim sets (iss, sub, aud in {{absent, \"a\", \"b\", \"\"}}; exp, nbf in {{absent, every boundary now+-leeway+-1ns for all instants and leeways, Timestamp::MIN, Timestamp::MAX}})"
+                    "all {n} validator expressions of depth <= {depth} over 20 leaves (Time x 3 instants, TimeWithLeeway x 3 instants x leeway {{0, 1 ns, 1 s}}, HasExpiry, ForSubject / FromIssuer / ForAudience x {{\"a\", \"\"}}, NoValidation) and the combinators and_then (through Box<dyn Validate> and, for every ordered pair of leaves, called on the concrete leaf types, which is where a leaf type's own override of a provided method lives), Vec (0..2), boxed slice (0..2), map, Box, Rc, Arc (depth 3: one operand of depth 2 and one leaf) x {nclaims} claim sets (iss, sub, aud in {{absent, \"a\", \"b\", \"\"}}; exp, nbf in {{absent, every boundary now+-leeway+-1ns for all instants and leeways, Timestamp::MIN, Timestamp::MAX}})"
                 ),
                 move |idx, describe| {
                     let e = &exprs[idx as usize];
@@ -385,5 +439,7 @@ fn kind_of(e: &Expr) -> &'static str {
         Expr::Boxed(_) => "Box",
         Expr::Rc(_) => "Rc",
         Expr::Arc(_) => "Arc",
+        Expr::TypedAnd(..) => "and_then-on-concrete-types",
+        Expr::TypedMap(_) => "map-on-concrete-type",
     }
 }
